@@ -148,6 +148,41 @@ def h_square_prob(ctx, n1, n2, r, target):
     ctx.claim('chain_rule_probability_squared', ctx.eq(prod * tot, F[tuple(target)] * F[tuple(target)]))
 
 
+def h_square_prob3(ctx, targets):
+    """sample_square, d = 3, rank 2, two samples drawn in one batch that agree in
+    their second index but not in the first: every sample's chain of conditionals
+    multiplies to its own Y[i]^2 / ||Y||^2.  The tensor is given in
+    right-orthogonal form (fixed rational orthonormal rows in cores 1 and 2, free
+    first core), so the RQ steps of the preparation are the registered (I, Q)."""
+    c = ctx.const
+    h = c(1) / 2
+    t = c(1) / 10
+    Q1 = np.array([[h, h, h, h], [t * 7, t, -t, -t * 7]], dtype=object if is_sym(ctx) else float)    # orthonormal rows: 49+1+1+49 = 100
+    Q2 = np.array([[c(3) / 5, c(4) / 5], [c(-4) / 5, c(3) / 5]], dtype=object if is_sym(ctx) else float)
+    G0 = ctx.array('g0', (1, 2, 2))
+    expect(ctx, 'rq', Q1, (eye(ctx, 2), Q1))
+    expect(ctx, 'rq', Q1 * 2, (eye(ctx, 2) * 2, Q1))       # (the stabilised preparation rescales this core by 2)
+    expect(ctx, 'rq', Q2, (eye(ctx, 2), Q2))
+    Y = [G0, rF(Q1, (2, 2, 2)), rF(Q2, (2, 2, 1))]
+    F = ref_full(Y)
+    tot = sumsq(F)
+    ctx.assume(ctx.gt(tot, 0))
+    m = len(targets)
+    # draw order: one batched draw for mode 0, then per sample for mode 1, then per sample for mode 2
+    script = [t[0] for t in targets] + [t[1] for t in targets] + [t[2] for t in targets]
+    g = _gen(ctx, 'audit', script=script)
+    I = teneva.sample_square(Y, m, unique=False, seed=g)
+    ctx.claim('shape', I.shape == (m, 3))
+    ctx.claim('returns_drawn_indices', [[int(x) for x in row] for row in I] == [list(t) for t in targets])
+    ch = [e for e in g.log if e[0] == 'choice']
+    ctx.claim('draw_count', len(ch) == 1 + 2 * m)
+    for s_, t in enumerate(targets):
+        p0 = ch[0][3][t[0]]
+        p1 = ch[1 + s_][3][t[1]]
+        p2 = ch[1 + m + s_][3][t[2]]
+        ctx.claim('chain_rule_probability_squared', ctx.eq(p0 * p1 * p2 * tot, F[tuple(t)] * F[tuple(t)]))
+
+
 def h_square_quasi(ctx, d, n, target_i, unique):
     """sample_square on the super-diagonal family (any d): the only indices with
     positive probability are the diagonal ones, with probability a_i^2 / sum a^2."""
@@ -287,6 +322,8 @@ def instances(tier):
         # over-ranked second core (rank 3 > mode size 2): economic RQ with a tall R
         out.append({'func': 'h_square_prob', 'params': {'n1': 2, 'n2': 2, 'r': 3, 'target': list(tgt)},
                     'opts': {'generic_divisors': True}})
+    for targets in ([[0, 0, 1], [1, 0, 0]], [[1, 1, 0], [0, 1, 1]]):
+        out.append({'func': 'h_square_prob3', 'params': {'targets': targets}, 'opts': {'generic_divisors': True}})
     out.append({'func': 'h_square_unique_retry', 'params': {'obj': True}, 'opts': {'symbolic_signs': False}})
     for d, n in ([(3, 2)] if quick else [(3, 2), (4, 2), (3, 3)]):
         for t in range(n):
@@ -296,7 +333,8 @@ def instances(tier):
     for n, m in ([([2, 3], 3), ([2, 2], 3), ([3], 4), ([3], 2), ([4], 3)] if quick else [([2, 3], 3), ([2, 2], 3), ([3], 4), ([3], 2), ([4], 3), ([3, 2], 5), ([4], 6)]):
         for perm in ('reverse', 'rotate'):
             out.append({'func': 'h_lhs', 'params': {'n': n, 'm': m, 'perm': perm}})
-    for n, r in ([([2, 2], 2), ([2, 2, 2], 2), ([3, 2], 3)] if quick else [([2, 2], 2), ([2, 2, 2], 2), ([3, 2], 3), ([3, 3], 2), ([3, 3, 3], 3)]):
+    # (non-uniform shapes: prefix and suffix sets of equal length belong to different modes)
+    for n, r in ([([2, 2], 2), ([2, 2, 2], 2), ([3, 2], 3), ([2, 3], 2), ([3, 1, 2], 1)] if quick else [([2, 2], 2), ([2, 2, 2], 2), ([3, 2], 3), ([3, 3], 2), ([3, 3, 3], 3), ([2, 3, 4], 2), ([3, 1, 2], 1), ([4, 2, 3, 2], 2)]):
         out.append({'func': 'h_sample_tt', 'params': {'n': n, 'r': r}})
     out.append({'func': 'h_sample_tt_history', 'params': {'n': [2, 2], 'r_first': 1, 'r': 2}})
     out.append({'func': 'h_rand_samplers', 'params': {'n': [2, 3], 'm': 2}})
